@@ -10,7 +10,7 @@ Definition unit_res (_ : unit) (_ : N) : unit := tt.
 Notation urun := (H2Relay.run unit_dec unit_enc unit_res unit_res (pair0 unit unit tt tt tt tt)).
 
 Ltac wf_tac := unfold hist_wf; repeat (constructor; [cbn [e_frame frame_wf count4 N.eqb Pos.eqb]; try lia; try exact I|]); constructor.
-Ltac small_tac := unfold hist_small; repeat (constructor; [cbn [e_frame frame_small]; try exact I; unfold len; cbn [length N.of_nat]; try lia|]); constructor.
+Ltac small_tac := unfold hist_small; repeat (constructor; [cbn [e_frame frame_small count5 N.eqb Pos.eqb]; try exact I; try (split; [unfold len; cbn [length N.of_nat]; lia|lia]); unfold len; cbn [length N.of_nat]; try lia|]); constructor.
 
 Definition lowered_while_queued : list event :=
   [mkEv Sv (RSettings false [(4, 10); (5, 32768)]) [[]]; mkEv Cl (RSettings true []) [];
